@@ -50,5 +50,16 @@ class GE(GD):
         return [self.z]
 
 
-FIELDS = {GA: ('x',), GB: ('one', 'many'), GC: ('a', 'b'), GD: ('p', 'label'), GE: ('p', 'label', 'z')}
-RUN_RETURN = {GA: 'int', GB: 'dict', GC: None, GD: 'list[int]', GE: 'list[int]'}
+from .gtypes2 import GF, GG  # noqa: E402
+
+FIELDS = {GA: ('x',), GB: ('one', 'many'), GC: ('a', 'b'), GD: ('p', 'label'), GE: ('p', 'label', 'z'),
+          GF: ('a', 'b', 'c', 'd', 'dep'), GG: ('b', 'a', 'd', 'c', 'dep')}
+RUN_RETURN = {GA: 'int', GB: 'dict', GC: None, GD: 'list[int]', GE: 'list[int]',
+              GF: 'typing.Optional[int]', GG: 'int | None'}
+# the annotation of every parameter as written in the class body (what a reader of the diagram expects to see)
+FIELD_TYPES = {
+    GA: {'x': 'int'}, GB: {'one': 'Any', 'many': 'Any'}, GC: {'a': 'Any', 'b': 'Any'}, GD: {'p': 'Any', 'label': 'str'},
+    GE: {'p': 'Any', 'label': 'str', 'z': 'int'},
+    GF: {'a': 'typing.Optional[float]', 'b': 'float | None', 'c': 'typing.Union[int, str]', 'd': 'typing.Union[str, int]', 'dep': 'Any'},
+    GG: {'a': 'typing.Optional[float]', 'b': 'float | None', 'c': 'typing.Union[int, str]', 'd': 'typing.Union[str, int]', 'dep': 'Any'},
+}
